@@ -270,3 +270,142 @@ def consts_in(body):
             if a.is_const() and "str" in (a.const or {}):
                 out.add(a.const_value())
     return out
+
+
+# --- decision-function summaries -----------------------------------------------------------
+
+
+def enum_paths(body, max_paths=2000):
+    """All acyclic entry->return paths (non-unwind edges). Each path is a list of blocks."""
+    out = []
+    sc = body.succs()
+
+    def dfs(b, path, onpath):
+        if len(out) >= max_paths:
+            return
+        path.append(b)
+        onpath.add(b)
+        t = body.term(b)
+        if t["k"] == "return":
+            out.append(list(path))
+        else:
+            for s in sc[b]:
+                if s not in onpath:
+                    dfs(s, path, onpath)
+        path.pop()
+        onpath.discard(b)
+
+    import sys
+    sys.setrecursionlimit(max(10000, sys.getrecursionlimit()))
+    dfs(0, [], set())
+    return out
+
+
+def path_conditions(body, path):
+    """[(switch block, kind, obj, fact)] along a path; fact = ('in', [values]) or ('not_in', [values])
+    for the raw switched value, with polarity already folded for bools (fact is then True/False)."""
+    conds = []
+    for i, b in enumerate(path[:-1]):
+        t = body.term(b)
+        if t["k"] != "switch" or b in body._const_switch:
+            continue
+        nxt = path[i + 1]
+        vals = [v for v, tb in t["ts"] if tb == nxt]
+        if vals and nxt != t["else"]:
+            fact = ("in", vals)
+        elif nxt == t["else"] and not vals:
+            fact = ("not_in", [v for v, _ in t["ts"]])
+        else:
+            fact = ("in_or_else", vals)
+        for kind, obj, pol in an.cond_sources(body, Operand(t["d"])):
+            if t["dty"] == "bool":
+                if fact[0] == "in":
+                    val = fact[1] != ["0"]
+                elif fact[0] == "not_in":
+                    val = "0" in fact[1]
+                else:
+                    val = None
+                if val is not None and not pol:
+                    val = not val
+                conds.append((b, kind, obj, val))
+            elif kind == "discr":
+                ap, rv = obj
+                names = rv.get("variants", {})
+                if fact[0] == "in":
+                    vs = {names.get(v, v) for v in fact[1]}
+                elif fact[0] == "not_in":
+                    vs = {n for v, n in names.items() if v not in fact[1]}
+                else:
+                    vs = None
+                conds.append((b, "discr", ap, vs))
+            else:
+                conds.append((b, kind, obj, fact))
+    return conds
+
+
+def path_return(body, path):
+    """What the return place holds at the end of a path: ('const', v) | ('variant', name) |
+    ('call', Call) | ('copy', AP) | ('?',)"""
+    last = ("?",)
+    for b in path:
+        for s in body.stmts(b):
+            if s["k"] == "assign" and s["p"]["l"] == 0 and not s["p"].get("p"):
+                rv = s["rv"]
+                if rv["k"] == "use" and rv["op"]["k"] == "const":
+                    last = ("const", Operand(rv["op"]).const_value())
+                elif rv["k"] == "agg" and rv.get("agg") == "adt":
+                    last = ("variant", rv["variant"], rv)
+                elif rv["k"] == "use":
+                    o = Operand(rv["op"])
+                    # bool temp computed from a call?
+                    srcs = an.cond_sources(body, o)
+                    if len(srcs) == 1 and srcs[0][0] == "call":
+                        last = ("call", srcs[0][1], srcs[0][2])
+                    else:
+                        last = ("copy", an.trace_operand(body, o))
+                else:
+                    last = ("?",)
+        c = body.call_at(b)
+        if c is not None and c.dest is not None and c.dest.local == 0 and not c.dest.proj and c.target in path:
+            last = ("call", c, True)
+    return last
+
+
+def variant_ret_table(body, root=("arg", 1)):
+    """`match <arg> { V1 | V2 => K1, ... }` -> {variant: returned-constant-or-variant}.
+    Uses the first discriminant switch whose scrutinee is rooted at `root`."""
+    for sw, ap, adt, variants, rv in discr_switches(body):
+        if ap.root != root:
+            continue
+        arms = switch_arms(body, sw, variants)
+        out = {}
+        for name, tb in arms.items():
+            if name == "_":
+                continue
+            vals = ret_consts_from(body, tb)
+            out[name] = next(iter(vals)) if len(vals) == 1 else ("?", tuple(sorted(map(str, vals))))
+        return out, adt
+    return None, None
+
+
+def variant_region_consts(body, root=("arg", 1)):
+    """{variant: sorted string constants used only in that arm} for `match <arg> {..}`."""
+    for sw, ap, adt, variants, rv in discr_switches(body):
+        if ap.root != root:
+            continue
+        arms = switch_arms(body, sw, variants)
+        out = {}
+        for name, tb in arms.items():
+            if name == "_":
+                continue
+            region = exclusive_region(body, sw, tb)
+            ss = set()
+            for c in body.calls():
+                if c.bb in region:
+                    for a in c.args:
+                        ap2 = an.trace_operand(body, a)
+                        if ap2.root[0] == "const" and isinstance(ap2.root[1], str):
+                            ss.add(ap2.root[1])
+            out[name] = sorted(ss)
+        return out
+    return None
